@@ -134,13 +134,16 @@ public:
     return COLVARS_OK;
   }
 
+  std::mutex log_mutex;   // (C12) items running on several threads may log at the same time
   void log(std::string const &message) override
   {
+    std::lock_guard<std::mutex> g(log_mutex);
     if (logos) (*logos) << message;
     if (!quiet) std::cerr << "colvars: " << message;
   }
   void error(std::string const &message) override
   {
+    std::lock_guard<std::mutex> g(log_mutex);
     add_error_msg(message);
     errtext += message;
     if (logos) (*logos) << message;
@@ -201,11 +204,13 @@ public:
   }
   // (C12) run `order` (a list of item indices) on nthreads std::threads: the k-th entry goes to thread
   // eng->assign[k] when given, otherwise k mod nthreads; each thread runs its entries in list order
-  void run_schedule(std::vector<int> const &order, std::function<void(int, int)> const &work)
+  void run_schedule(std::vector<int> const &order, std::function<void(int, int)> const &work, bool raise_depth = false)
   {
     int nt = std::max(1, eng->nthreads);
     if (nt == 1) {
+      if (raise_depth) cvm::increase_depth();
       for (int i : order) work(i, 0);
+      if (raise_depth) cvm::decrease_depth();
       return;
     }
     std::vector<std::vector<int> > q(nt);
@@ -214,11 +219,15 @@ public:
       if (t < 0 || t >= nt) t = (int) (k % nt);
       q[t].push_back(order[k]);
     }
+    cvm::depth();    // allocate the per-thread depth counters before the threads start
     std::vector<std::thread> ths;
     for (int t = 0; t < nt; t++) {
       ths.emplace_back([&, t]() {
         my_thread_id = t;
+        // as colvarproxy_smp::smp_loop: every thread that runs items raises its own depth counter
+        if (raise_depth) cvm::increase_depth();
         for (int i : q[t]) work(i, t);
+        if (raise_depth) cvm::decrease_depth();
       });
     }
     for (auto &th : ths) th.join();
@@ -250,11 +259,9 @@ public:
     // explicit permutation, items dealt to nthreads std::threads
     std::vector<int> order = schedule_order(n_items);
     int error_code = COLVARS_OK;
-    cvm::increase_depth();
     std::vector<int> codes(std::max(1, eng->nthreads), 0);
-    run_schedule(order, [&](int i, int t) { codes[t] |= worker(i); });
+    run_schedule(order, [&](int i, int t) { codes[t] |= worker(i); }, true);
     for (size_t t = 0; t < codes.size(); t++) error_code |= codes[t];
-    cvm::decrease_depth();
     return error_code;
   }
   void record_bias_items(bool with_script)
